@@ -109,6 +109,7 @@ func checkC01(c *Ctx) {
 	checkEmptyValueLegal(c)
 	checkCloneCopiesDecisionFields(c)
 	checkIndexReaders(c)
+	checkFailedWriteKeepsRoot(c)
 	c.rule("PASS-root-record", "existence and identity of a version come from its stored root record, not from the node cache", 2)
 	checkRootRecord(c, "PASS-root-record")
 	checkMergeOrder(c)
